@@ -13,7 +13,7 @@
    [sqrtf] is np.sqrt: any function with the defining property of the square root. *)
 From Coq Require Import Reals List Bool.
 From Verif Require Import Base.Num Base.Vec Base.VecR C08.Model C08.VecLemmas C08.Rules C08.Proofs
-  C08.ProxRules C08.Moreau C08.GradEq C08.Biconj.
+  C08.ProxRules C08.Moreau C08.GradEq C08.Biconj C08.KL.
 Import ListNotations.
 Local Open Scope R_scope.
 
@@ -113,3 +113,22 @@ Theorem biconjugate_refuted :
     wf 1 e /\ value sqrt 0 e [1] x = Ok vx /\ cconj [1] e = Ok e' /\ cconj [1] e' = Ok e'' /\
     value sqrt 0 e'' [1] x = Ok vxx /\ ~ veq (Ok vxx) (Ok vx).
 Proof. exact biconj_refuted_proof. Qed.
+
+(* T2  The Kullback-Leibler pairs (formulas transcribed by hand from the four _call bodies, with
+   scipy's xlogy; NOT executed by the correspondence because of ln/exp -- tie = probes only):
+   Fenchel-Young on the natural domains, all dimensions and positive weights, any prior g. *)
+Theorem kl_fenchel_young : forall (w g x y : list R),
+  wpos w -> Forall (fun a => 0 <= a) g -> Forall (fun a => 0 < a) x -> Forall (fun a => a < 1) y ->
+  length g = length w -> length x = length w -> length y = length w ->
+  wdot w x y <= KL w g x + KLconj w g y.
+Proof. exact kl_fenchel_young_proof. Qed.
+Theorem kl_cross_entropy_fenchel_young : forall (w g x y : list R),
+  wpos w -> Forall (fun a => 0 < a) g -> Forall (fun a => 0 <= a) x ->
+  length g = length w -> length x = length w -> length y = length w ->
+  wdot w x y <= KLCE w g x + KLCEconj w g y.
+Proof. exact klce_fenchel_young_proof. Qed.
+(* entrywise equality at the gradients 1 - g/x  and  ln(x/g) *)
+Theorem kl_equality_at_gradient : forall g x : R, 0 < g -> 0 < x ->
+  kl1 g x + klc1 g (1 - g / x) = x * (1 - g / x) /\ kce1 g x + kcec1 g (ln (x / g)) = x * ln (x / g).
+Proof. intros g x Hg Hx. split; [apply kl1_eq | apply kce1_eq]; assumption. Qed.
+Print Assumptions kl_fenchel_young.
